@@ -34,7 +34,6 @@ def hasLateral (d : Dataset) (validated : List (String × Val)) : Bool :=
   | .aggregatedPit => need
   | .aggregated => useFilter validated "metadata" || need
 
-def sigPushdown : String := "C20:lateral-pushdown-drops-$in-address-under-$or"
 
 def handlePushdown : Handler := fun inp out => do
   let resource ← strField inp "resource"
@@ -94,19 +93,18 @@ def handlePushdown : Handler := fun inp out => do
         | none, none => true
         | none, some j => j.isNull
         | _, _ => false
+      let existsOnBalance := resource == "volumes" && (leaves.zip validated).any fun (l, v) =>
+        l.1 == Op.exists_ && v.1 == "balance"
       -- a key such as `metadata[` passes `validateFilters` (compared up to `[`) but the
       -- resource's own `ResolveFilter` (SQL rendering, not modelled here) refuses it:
       -- no statement is rendered, so there is nothing to compare on the SQL side
       let resolveRefused := gSqlErr.startsWith "building filtered dataset: unsupported filter" ||
         gSqlErr.startsWith "building filtered dataset: unknown key" ||
-        gSqlErr.startsWith "unsupported filter" || gSqlErr.startsWith "unknown key"
-      -- `$exists` on the `balance` property passes validation (map type) and reaches
-      -- `ConvertOperatorToSQL("$exists")` = `panic("unreachable")` in the volumes
-      -- `ResolveFilter`
-      let existsOnBalance := resource == "volumes" && (leaves.zip validated).any fun (l, v) =>
-        l.1 == Op.exists_ && v.1 == "balance"
-      let agree := gParseErr == "" && (if existsOnBalance then gPanic == "panic: unreachable" else gPanic == "") &&
-        gValidErr == "" && existsOnBalance || gParseErr == "" && gPanic == "" && gValidErr == "" &&
+        gSqlErr.startsWith "unsupported filter" || gSqlErr.startsWith "unknown key" ||
+        -- `$exists` on `balance` passes validation (map type) and is refused by the
+        -- volumes `ResolveFilter` with an invalid-query error (fix 6249c09)
+        (existsOnBalance && gSqlErr.startsWith "building filtered dataset: operator '$exists' is not allowed")
+      let agree := gParseErr == "" && gPanic == "" && gValidErr == "" &&
         gAddrs == as && gNeed == need && gCan == can && useAgree && gText == latText && reAgree &&
         (if resolveRefused then true else gSqlErr == "" && gLat == lat && gPushed == applied)
       -- property on the implementation's outputs: a row the filter selects must
@@ -117,8 +115,7 @@ def handlePushdown : Handler := fun inp out => do
       let prop := gPanic == "" && dropped.isEmpty
       let droppedModel := selected.filter fun e => applied && !lateralKeeps as e.address
       let hasIn := !noAddrIn f
-      let sig := if existsOnBalance && agree then "C38:$exists-on-balance-panics-in-ResolveFilter"
-        else if !prop && agree && hasIn then sigPushdown else ""
+      let sig := ""
       let kept := rows.filter fun e => !gPushed || lateralKeeps gAddrs e.address
       pure { model, agree, prop, propModel := droppedModel.isEmpty,
              nontrivial := gPushed && !selected.isEmpty && kept.length < rows.length,
@@ -126,10 +123,9 @@ def handlePushdown : Handler := fun inp out => do
                       if applied then "pushed" else if lat then "lateral-unpushed" else "no-lateral",
                       if can then "canPush" else "cannotPush",
                       if hasIn then "addr-$in" else "no-addr-$in",
-                      if existsOnBalance then "resolve-panic" else if resolveRefused then "resolve-refused" else "rendered",
+                      if resolveRefused then "resolve-refused" else "rendered",
                       s!"depth{min f.depth 6}"],
              note := if prop then "" else
-               if existsOnBalance then "panic(\"unreachable\") in ConvertOperatorToSQL for $exists on balance" else
                s!"lateral join drops a selected row: address {String.intercalate ":" ((dropped.head?.map (·.address)).getD [] |>.map segStr)}",
              sig }
 
